@@ -24,8 +24,8 @@ ID = 'C09'
 LEVEL = 'model_checking'
 TECHNIQUE = 'explicit-state BFS over operation histories on real containers/models/linkers with canonical-observation state matching; invariant on every state, reference dict on every transition'
 RULE = ('BFS to depth 2 (quick) / 3 (thorough) over ~400 operations (9 operation kinds x names {existing float/int/str/bool, unknown, near-miss, new} x '
-        '24 operand shapes) on 3 object kinds; states deduplicated by canonical observation; traces = transitions whose stored result was compared '
-        'with the reference dict; non-trivial = transition that changes the observation or raises')
+        '27 operand shapes) on 3 object kinds; states deduplicated by canonical observation; traces = transitions whose stored result was compared '
+        'with the reference dict; plus, under strict=True, every edit-distance-1 near-miss of every variable, every name resolvable on the class and every private slot name (hint compared with a difflib reference); non-trivial = transition that changes the observation or raises')
 ASSUMPTIONS = [
     'operands NumPy broadcasts (length-1, (1,n), (n,1)) may succeed or raise: only the invariant is demanded',
     'bulk operations (values=, replace_values with several names) that raise are only required to keep the invariant',
